@@ -1,0 +1,59 @@
+//go:build verif
+
+// Accessors for the C19 verification harness (/verif). Add-only, no behaviour change; the file
+// vanishes without the `verif` build tag.
+package inject
+
+import (
+	corev1 "k8s.io/api/core/v1"
+	metav1 "k8s.io/apimachinery/pkg/apis/meta/v1"
+
+	meshconfig "istio.io/api/mesh/v1alpha1"
+	"istio.io/istio/pilot/pkg/model"
+	"istio.io/istio/pkg/kube"
+)
+
+// VerifInjectRequired is injectRequired.
+func VerifInjectRequired(ignored []string, config *Config, podSpec *corev1.PodSpec, metadata metav1.ObjectMeta) bool {
+	return injectRequired(ignored, config, podSpec, metadata)
+}
+
+// VerifNewWebhook builds a Webhook the way the package's own TestInjection does (no watcher, no
+// multicluster components: native sidecars then follow features.EnableNativeSidecars).
+func VerifNewWebhook(cfg *Config, values ValuesConfig, mc *meshconfig.MeshConfig, revision string) *Webhook {
+	env := &model.Environment{}
+	env.SetPushContext(&model.PushContext{ProxyConfigs: &model.ProxyConfigs{}})
+	return &Webhook{
+		Config:       cfg,
+		meshConfig:   mc,
+		env:          env,
+		valuesConfig: values,
+		revision:     revision,
+	}
+}
+
+// VerifInject is (*Webhook).inject: the admission path (injectRequired, then injectPod).
+func (wh *Webhook) VerifInject(ar *kube.AdmissionReview, path string) *kube.AdmissionResponse {
+	return wh.inject(ar, path)
+}
+
+// VerifInjectPod is injectPod with the parameters the webhook would compute for `pod`.
+func (wh *Webhook) VerifInjectPod(pod *corev1.Pod, nativeSidecar bool) ([]byte, error) {
+	proxyConfig := wh.env.GetProxyConfigOrDefault(pod.Namespace, pod.Labels, pod.Annotations, wh.meshConfig)
+	deploy, typeMeta := kube.GetDeployMetaFromPod(pod)
+	return injectPod(InjectionParameters{
+		pod:                 pod,
+		deployMeta:          deploy,
+		typeMeta:            typeMeta,
+		templates:           wh.Config.Templates,
+		defaultTemplate:     wh.Config.DefaultTemplates,
+		aliases:             wh.Config.Aliases,
+		meshConfig:          wh.meshConfig,
+		proxyConfig:         proxyConfig,
+		valuesConfig:        wh.valuesConfig,
+		revision:            wh.revision,
+		injectedAnnotations: wh.Config.InjectedAnnotations,
+		proxyEnvs:           parseInjectEnvs(""),
+		nativeSidecar:       nativeSidecar,
+	})
+}
